@@ -31,7 +31,7 @@ Definition tpl_ok (t : tpl) : bool := negb (tp_complete t) || valid_node schema0
 (** the templates the validator rejects, COMPUTED from the data (the closed obligation
     [tpl_failing = []] is stated in props/C03.v, last, so that a deviation in the library
     does not hide the obligations that still hold) *)
-Definition tpl_failing : list N := map tp_id (filter (fun t => negb (tpl_ok t)) templates).
+Notation tpl_failing := (map tp_id (filter (fun t => negb (tpl_ok t)) templates)) (only parsing).
 
 Lemma memN_In c l : memN c l = true <-> In c l.
 Proof.
@@ -54,7 +54,7 @@ Lemma templates_valid : forall t, In t templates -> tp_complete t = true ->
   memN (tp_id t) tpl_failing = false ->
   valid_node schema0 exempt (tp_ty t) (tp_node t) = true.
 Proof.
-  intros t Hin Hc Hnf. unfold tpl_failing in Hnf.
+  intros t Hin Hc Hnf.
   apply (not_failing_ok tp_id tpl_ok templates t Hin) in Hnf.
   unfold tpl_ok in Hnf. rewrite Hc in Hnf. exact Hnf.
 Qed.
@@ -83,7 +83,7 @@ Definition tpl_ord_ok (t : tpl) : bool := negb (tp_complete t) || tpl_ord t.
 (** DECLARATIONS: every declared child of every registered class against every XSD type
     of its tags passes decl_ok on THIS schema table *)
 Definition decl_ok_row (r : decl) : bool := memN (dc_id r) known_decl || decl_row_ok schema0 r.
-Definition decl_failing : list N := map dc_id (filter (fun r => negb (decl_ok_row r)) decls).
+Notation decl_failing := (map dc_id (filter (fun r => negb (decl_ok_row r)) decls)) (only parsing).
 
 Lemma decls_admissible : forall r, In r decls -> memN (dc_id r) known_decl = false ->
   memN (dc_id r) decl_failing = false ->
@@ -91,7 +91,7 @@ Lemma decls_admissible : forall r, In r decls -> memN (dc_id r) known_decl = fal
   (order_checked T = true -> decl_ok (flatten (ct_cm T)) (dc_child r) (dc_succ r) = true).
 Proof.
   intros r Hin Hk Hnf.
-  unfold decl_failing in Hnf. apply (not_failing_ok dc_id decl_ok_row decls r Hin) in Hnf. rename Hnf into H.
+  apply (not_failing_ok dc_id decl_ok_row decls r Hin) in Hnf. rename Hnf into H.
   unfold decl_ok_row in H. rewrite Hk in H. cbn [orb] in H. unfold decl_row_ok in H.
   destruct (lookup_type schema0 (dc_ty r)) as [T|]; [|discriminate]. exists T. split; auto.
   intros Hoc. rewrite Hoc in H. exact H.
@@ -122,7 +122,7 @@ Qed.
 Definition attr_ok_row (r : attrdecl) : bool :=
   memN (at_id r) known_attr || negb (N.eqb (attr_row_verdict schema0 r) 1)
   || existsb (fun r' => N.eqb (at_grp r') (at_grp r) && N.eqb (attr_row_verdict schema0 r') 0) adecls.
-Definition attr_failing : list N := map at_id (filter (fun r => negb (attr_ok_row r)) adecls).
+Notation attr_failing := (map at_id (filter (fun r => negb (attr_ok_row r)) adecls)) (only parsing).
 
 Lemma attrs_admissible : forall r, In r adecls -> memN (at_id r) known_attr = false ->
   attr_row_verdict schema0 r = 0%N ->
